@@ -41,7 +41,20 @@ BASES: Dict[str, Tuple[str, ...]] = {
     "class:Y": ("class:Other", "class:Mixin"),
     "class:Z": ("class:Mixin", "class:Other"),
     "class:Solo": (OBJ,),
+    # user classes that merely share their NAME with a typing alias (an ORM's `List`, an AST's `Union`, a `Generator` of ids)
+    "class:Union": (OBJ,),
+    "class:List": (OBJ,),
+    "class:Dict": ("class:Base",),
+    "class:Tuple": (OBJ,),
+    "class:Set": (OBJ,),
+    "class:Generator": (OBJ,),
+    "class:Iterator": (OBJ,),
+    "class:DefaultDict": (OBJ,),
+    "class:TypedDict": (OBJ,),
+    "class:Any": (OBJ,),
 }
+NAMESAKES = ("class:Union", "class:List", "class:Dict", "class:Tuple", "class:Set", "class:Generator", "class:Iterator", "class:DefaultDict",
+             "class:TypedDict", "class:Any")
 
 
 def mro(c: str) -> Tuple[str, ...]:
@@ -275,6 +288,11 @@ class RewriterScenario:
         meth = call.func.attr if isinstance(call.func, ast.Attribute) else None
         if isinstance(fval, S) and fval.name == "self" and meth == "rewrite" and len(args) == 1:
             return args[0]  # members are leaves
+        if isinstance(fval, R) and fval.kind == "boundmethod" and isinstance(call.func, ast.Name):
+            # a bound method of the rewriter held in a local (`rewriter = getattr(self, "rewrite_" + name)`) is called
+            m_b = self.repo.method(self.ci, fval.fields["name"].v)
+            if m_b is not None:
+                return self.ri.inline_call(m_b, call, S("self"), args, kwargs, st)
         if isinstance(fval, R) and fval.kind == "rw" and meth == "rewrite" and len(args) == 1:
             st.effects.append(("rw.rewrite", fval.fields["id"], st.freeze(args[0])))
             return R("out", by=fval.fields["id"], of=K(repr(st.freeze(args[0]))))  # an opaque member of a chain returns a new object (described, not referenced)
@@ -303,6 +321,8 @@ class RewriterScenario:
         if d == "isinstance" and len(args) == 2:
             if args[1] == S("builtin:type"):
                 return K(is_class(args[0]))
+            if args[1] == S("mod:typing.TypeVar"):
+                return K(False)  # the type universe has no type variables
             return None
         if d == "issubclass" and len(args) == 2:
             a, b = args
